@@ -39,9 +39,31 @@ func genBotParent(c *Ctx) {
 	}
 	defer os.RemoveAll(dir)
 	cmd := exec.Command(os.Args[0], "run", "-prop", "C07w", "-seed", strconv.FormatUint(c.Seed, 10), "-tier", c.Tier, "-out", dir, "-shards", "1")
-	cmd.Env = append(os.Environ(), fmt.Sprintf("VERIF_C07_SHARD=%d", c.Shard), fmt.Sprintf("VERIF_C07_NSHARD=%d", c.NShard), "GOMAXPROCS=1")
+	journal := filepath.Join(dir, "journal")
+	cmd.Env = append(os.Environ(), fmt.Sprintf("VERIF_C07_SHARD=%d", c.Shard), fmt.Sprintf("VERIF_C07_NSHARD=%d", c.NShard), "GOMAXPROCS=1", "VERIF_C07_JOURNAL="+journal)
 	if out, err := cmd.CombinedOutput(); err != nil {
-		panic(fmt.Sprintf("C07 worker failed: %v\n%s", err, out))
+		// the worker died (a panic outside the protocol goroutine kills the process): report the case in
+		// progress as a disagreement - its last op has no output on the Go side
+		jb, jerr := os.ReadFile(journal)
+		if jerr != nil || len(jb) == 0 {
+			panic(fmt.Sprintf("C07 worker failed: %v\n%s", err, out))
+		}
+		lines := strings.Split(strings.TrimRight(string(jb), "\n"), "\n")
+		for i := 0; i < len(lines); i++ {
+			if !strings.HasPrefix(lines[i], "> ") {
+				continue
+			}
+			op, res := lines[i][2:], "worker-crashed"
+			if i+1 < len(lines) && strings.HasPrefix(lines[i+1], "< ") {
+				res = lines[i+1][2:]
+			}
+			c.ops.WriteString(op + "\n")
+			c.exp.WriteString(res + "\n")
+			c.N++
+		}
+		c.Count("WORKER-CRASHED")
+		fmt.Fprintf(os.Stderr, "C07 worker %d crashed: %v\n%s\n", c.Shard, err, clip(string(out), 2000))
+		return
 	}
 	of, err := os.Open(filepath.Join(dir, "C07w.00.ops"))
 	if err != nil {
@@ -87,6 +109,26 @@ func genBotParent(c *Ctx) {
 			c.Stats[k] += v
 		}
 	}
+}
+
+// ---- journal: the op lines of the case in progress, so that a worker killed by a panic on a goroutine
+// the harness cannot guard (a thinker goroutine of handleMove) still yields a replayable violation
+
+var botJournal *os.File
+
+func jemit(c *Ctx, line string) string {
+	if botJournal != nil {
+		if strings.HasPrefix(line, "case ") {
+			botJournal.Truncate(0)
+			botJournal.Seek(0, 0)
+		}
+		botJournal.WriteString("> " + line + "\n")
+	}
+	out := c.Emit(line)
+	if botJournal != nil {
+		botJournal.WriteString("< " + out + "\n")
+	}
+	return out
 }
 
 // ---- scenarios
@@ -171,7 +213,7 @@ type botRun struct {
 func (r *botRun) cur() *tak.Position { return r.srv[len(r.srv)-1] }
 
 func (r *botRun) emit(line string) string {
-	out := r.c.Emit(line)
+	out := jemit(r.c, line)
 	r.b = botOf(r.c.S)
 	r.sync()
 	return out
@@ -208,7 +250,7 @@ func (r *botRun) sync() {
 }
 
 func (r *botRun) start(id int) {
-	r.c.Emit(fmt.Sprintf("case %d", id))
+	jemit(r.c, fmt.Sprintf("case %d", id))
 	r.srv = []*tak.Position{tak.New(tak.Config{Size: r.scn.size})}
 	r.seen, r.undoReq, r.tseen, r.times = 0, false, 0, 0
 	r.replay = r.scn.replay
@@ -423,7 +465,7 @@ func exploreScn(c *Ctx, scn *botScn, first int, caseID *int, variant string, bud
 			opts[stack[depth].choice].do()
 			depth++
 		}
-		c.Emit("state")
+		jemit(c, "state")
 		runs++
 		c.Count("scn:" + scn.name)
 		c.Count(fmt.Sprintf("len:%d", depth))
@@ -471,7 +513,7 @@ func randomWalk(c *Ctx, scn *botScn, rng *RNG, caseID *int, variant string, leng
 			break
 		}
 	}
-	c.Emit("state")
+	jemit(c, "state")
 	c.Count("scn:" + scn.name)
 	c.Count(fmt.Sprintf("len:%d", n))
 	if r.b != nil {
@@ -487,6 +529,9 @@ func envInt(k string, d int) int {
 }
 
 func genBotWorker(c *Ctx) {
+	if jp := os.Getenv("VERIF_C07_JOURNAL"); jp != "" {
+		botJournal, _ = os.Create(jp)
+	}
 	shard, nshard := envInt("VERIF_C07_SHARD", 0), envInt("VERIF_C07_NSHARD", 1)
 	variant := os.Getenv("VERIF_C07_VARIANT")
 	extra := 0
